@@ -27,7 +27,8 @@ import vlib
 LEVEL = "model_checking"
 SPECDIR = os.path.join(vlib.SPEC, "Peers")
 INPKG = os.path.join(vlib.HARNESS, "inpkg", "client_lib")
-HFILES = [os.path.join(INPKG, "peers_verif_test.go"), os.path.join(INPKG, "peerconnect_verif_test.go")]
+HFILES = [os.path.join(INPKG, "peers_verif_test.go"), os.path.join(INPKG, "peerconnect_verif_test.go"),
+          os.path.join(INPKG, "peerclose_verif_test.go")]
 
 # Open findings of this property (none: D8, D9, D10 are repaired).  D5 (C13,
 # DeserializeSessionDescription panicking on a non-string member, repaired by
@@ -328,20 +329,43 @@ def validate(chk, traces, scheds_by_id, tag, asis=False):
 # --------------------------------------------------------------------------
 # PeerConnect
 
-def pc_signature(res):
-    exp = res["expect"]
-    if res["result"] == "panic" and res.get("panic_in"):
-        return "C15/panic:" + res["panic_in"]        # event-listener/<event type>
-    if res.get("contract"):
-        return "C15/event:" + res["contract"][0]     # nil-error/<event type>
-    if res["result"] == "panic":
+def pc_signature(case, k, at, exp):
+    """signature of attempt k (1-based) of a PeerConnect case that does not conform"""
+    nth = "first-attempt" if k == 1 else "attempt-after-%s" % ("failed-negotiate" if case["expects"][k - 2]["failstep"] == "negotiate"
+                                                                 else "failed-" + case["expects"][k - 2]["failstep"] if case["expects"][k - 2]["result"] == "err" else "success")
+    if at["result"] == "hang":
+        return "C15/hang:%s/%s" % (at.get("hang_at") or "attempt", nth)
+    if at["result"] == "panic" and at.get("panic_in"):
+        return "C15/panic:" + at["panic_in"]        # event-listener/<event type>
+    if at.get("contract"):
+        return "C15/event:" + at["contract"][0]     # nil-error/<event type>
+    if at["result"] == "panic":
         step = exp.get("failstep") or "none"
-        if res["broker"] in ("nonstring_type", "nonstring_sdp"):
+        if case["broker"] in ("nonstring_type", "nonstring_sdp"):
             return "C15/panic:negotiate/answer-member-not-string"
         if step == "prepare":
             return "C15/panic:prepare/ice-config-rejected"
-        return "C15/panic:%s/ice=%s/broker=%s/dc=%s" % (step, res["ice"], res["broker"], res["dc"])
-    return "C15/peerconnect:got-%s-want-%s/ice=%s/broker=%s/dc=%s" % (res["result"], exp["result"], res["ice"], res["broker"], res["dc"])
+        return "C15/panic:%s/ice=%s/broker=%s/dc=%s/fp=%s" % (step, case["ice"], case["broker"], case["dc"], case["fp"])
+    return "C15/peerconnect:got-%s-want-%s/ice=%s/broker=%s/dc=%s/fp=%s/%s" % (
+        at["result"], exp["result"], case["ice"], case["broker"], case["dc"], case["fp"], nth)
+
+
+def pc_cases(prints):
+    """group TLC's Emit lines (one per attempt) into cases with their per-attempt expectations"""
+    by = collections.OrderedDict()
+    for p in prints:
+        if not (isinstance(p, dict) and "expect" in p):
+            continue
+        k = (p["ice"], p["broker"], p["dc"], p["fp"])
+        c = by.setdefault(k, {"ice": p["ice"], "broker": p["broker"], "dc": p["dc"], "fp": p["fp"], "attempts": p["attempts"], "expects": {}})
+        c["expects"][p["attempt"]] = p["expect"]
+    out = []
+    for c in by.values():
+        if sorted(c["expects"]) != list(range(1, c["attempts"] + 1)):
+            raise vlib.Inconclusive("PeerConnect: TLC printed attempts %s of %d for case %s" % (sorted(c["expects"]), c["attempts"], c))
+        c["expects"] = [c["expects"][i] for i in range(1, c["attempts"] + 1)]
+        out.append(c)
+    return out
 
 
 def peerconnect(chk, result):
@@ -349,17 +373,17 @@ def peerconnect(chk, result):
         r = vlib.tlc(SPECDIR, "PeerConnect", "PC_gen.cfg", workers=1, timeout=300)
         if r.error:
             raise vlib.Inconclusive("PeerConnect model: %s\n%s" % (r.error, r.out[-1500:]))
-        cases = [p for p in r.prints if isinstance(p, dict) and "expect" in p]
-        if len(cases) < 20:
-            raise vlib.Inconclusive("PeerConnect: only %d paths emitted" % len(cases))
+        cases = pc_cases(r.prints)
+        if len(cases) < 90:
+            raise vlib.Inconclusive("PeerConnect: only %d cases emitted" % len(cases))
         result["tlc"] = [r]
-        result["cases"] = cases
         if result.get("only_case") is not None:
-            cases = [c for c in cases if all(c[k] == result["only_case"][k] for k in ("ice", "broker", "dc"))]
+            oc = result["only_case"]
+            cases = [c for c in cases if all(c[k] == oc.get(k, c[k]) for k in ("ice", "broker", "dc", "fp"))]
         d = vlib.scratch("pc")
         inp, outp = os.path.join(d, "cases.ndjson"), os.path.join(d, "out.ndjson")
         vlib.write_ndjson(inp, cases)
-        go_test("^TestVerifC15PeerConnect$", {"VERIF_C15_PC_CASES": inp, "VERIF_C15_PC_OUT": outp}, 240)
+        go_test("^TestVerifC15PeerConnect$", {"VERIF_C15_PC_CASES": inp, "VERIF_C15_PC_OUT": outp}, 300)
         result["results"] = vlib.read_ndjson(outp)
     except Exception as e:  # noqa: BLE001 - reported by the main thread
         result["error"] = e
@@ -371,27 +395,47 @@ def judge_peerconnect(chk, result):
     for r in result["tlc"]:
         chk.add_tlc(r)
     res = result["results"]
-    bad = 0
+    bad = nattempts = second = 0
+
+    def report(sig, what, x, extra=None):
+        if len(chk.violations) >= MAX_REPORT and not any(k.get("key") == sig for k in chk.known):
+            return
+        chk.violation(sig, what, {"kind": "peerconnect", "case": {k: x[k] for k in ("ice", "broker", "dc", "fp")}, "got": x, "extra": extra})
+
     for x in res:
-        if x["result"] == "harness":
-            raise vlib.Inconclusive("PeerConnect harness problem in case %s/%s/%s: %s" % (x["ice"], x["broker"], x["dc"], x.get("err")))
-        exp = x["expect"]
-        if x["result"] == exp["result"] and x["events"] == exp["events"] and not x.get("contract"):
-            continue
-        bad += 1
-        if len(chk.violations) >= MAX_REPORT and not any(k.get("key") == pc_signature(x) for k in chk.known):
-            continue
-        chk.violation(pc_signature(x), "one rendezvous attempt with ice=%s broker=%s dc=%s: the real dialer gave result=%s events=%s %s; "
-                      "the contract (spec/Peers/PeerConnect.tla) demands result=%s events=%s" % (
-                          x["ice"], x["broker"], x["dc"], x["result"], x["events"], (x.get("panic") or x.get("err") or "")[:200],
-                          exp["result"], exp["events"]),
-                      {"kind": "peerconnect", "case": {k: x[k] for k in ("ice", "broker", "dc")}, "got": x})
-    chk.cov["evaluations"] += len(res)
-    chk.cov["distinct_nontrivial"] += sum(1 for x in res if x["expect"]["result"] == "err")
-    chk.note("PeerConnect: %d paths through the real dialer, %d not conforming (slowest %d ms)" % (len(res), bad, max(x["wall_ms"] for x in res)))
+        name = "ice=%s broker=%s dc=%s fingerprint=%s" % (x["ice"], x["broker"], x["dc"], x["fp"])
+        if x.get("harness"):
+            raise vlib.Inconclusive("PeerConnect harness problem in case %s: %s" % (name, x["harness"]))
+        for k, at in enumerate(x["attempts"], 1):
+            exp = x["expects"][k - 1]
+            nattempts += 1
+            second += k > 1
+            if at["result"] == exp["result"] and at["events"] == exp["events"] and not at.get("contract"):
+                continue
+            bad += 1
+            report(pc_signature(x, k, at, exp),
+                   "rendezvous attempt %d of %d on one BrokerChannel with %s: the real dialer gave result=%s events=%s %s; the contract "
+                   "(spec/Peers/PeerConnect.tla) demands result=%s events=%s" % (
+                       k, len(x["expects"]), name, at["result"], at["events"], (at.get("panic") or at.get("err") or at.get("hang_at") or "")[:200],
+                       exp["result"], exp["events"]), x)
+        ran_all = len(x["attempts"]) == len(x["expects"]) and all(a["result"] not in ("hang", "panic") for a in x["attempts"])
+        if x["end"] != "ok" and ran_all:
+            bad += 1
+            report("C15/%s:End/after-rendezvous-attempts" % ("hang" if x["end"] == "hang" else "panic"),
+                   "Peers.End after %d attempts with %s: %s" % (len(x["attempts"]), name, x["end"]), x)
+        if x["nat_lock"] != "ok" and ran_all:
+            bad += 1
+            report("C15/hang:SetNATType@channel-lock", "BrokerChannel.SetNATType after %d attempts with %s did not return: the channel lock "
+                   "was left held (LockReleased)" % (len(x["attempts"]), name), x)
+    chk.cov["evaluations"] += nattempts
+    chk.cov["distinct_nontrivial"] += sum(1 for x in res for e in x["expects"] if e["result"] == "err")
+    chk.cov["peerconnect"] = {"cases": len(res), "attempts": nattempts, "attempts_after_a_previous_one_on_the_same_channel": second}
+    chk.note("PeerConnect: %d cases / %d attempts through the real dialer (%d on a channel already used), %d not conforming (slowest case %d ms)" % (
+        len(res), nattempts, second, bad, max(x["wall_ms"] for x in res)))
     if res:
         x = res[len(res) // 2]
-        chk.sample({"peerconnect": {k: x[k] for k in ("ice", "broker", "dc", "result", "events")}, "expect": x["expect"]})
+        chk.sample({"peerconnect": {k: x[k] for k in ("ice", "broker", "dc", "fp")},
+                    "attempts": [{"result": a["result"], "events": a["events"]} for a in x["attempts"]], "expects": x["expects"]})
     return len(res)
 
 
@@ -404,7 +448,7 @@ def connectloop(chk, result):
         outp = os.path.join(d, "loop.ndjson")
         r = vlib.go_test_inpkg("client/lib", HFILES, "^TestVerifC15ConnectLoop$", env={"VERIF_C15_LOOP_OUT": outp},
                                linkflag=True, timeout=300)
-        m = re.search(r"^panic: .*$", r.out, re.M)
+        m = re.search(r"^panic: (?!test timed out).*$", r.out, re.M)
         if r.rc != 0 and not r.timed_out and m and "client/lib.connectLoop" in r.out:
             # the listener has no recover, exactly like the client binary's: a panic on connectLoop's goroutine
             # ends the process - here the test binary.  That IS the observation.
@@ -457,6 +501,10 @@ def judge_connectloop(chk, result):
             chk.violation("C15/no-report-or-retry-after-dc-timeout",
                           "scenario %s: after the data channel of the first peer never opened, retried=%s events=%s "
                           "(want a 'failed' event and a new rendezvous attempt)" % (x["scenario"], x["retried"], x["events"]), rp)
+        if x["scenario"].startswith("invalid-fingerprint") and not x["retried"]:
+            chk.violation("C15/no-retry-after-failed-rendezvous",
+                          "scenario %s: connectLoop's retry on the same BrokerChannel was not reported within ReconnectTimeout + 6 s "
+                          "(events %s)" % (x["scenario"], x["events"]), rp)
         if x.get("contract"):
             chk.violation("C15/event:" + x["contract"][0], "scenario %s: event contract: %s" % (x["scenario"], x["contract"]), rp)
         if x["calls_after_wait"] != x["calls_at_close"]:
@@ -469,6 +517,89 @@ def judge_connectloop(chk, result):
 
 
 # --------------------------------------------------------------------------
+# concurrent closers of one WebRTCPeer (spec/Peers/PeerClose.tla)
+
+def closerace(chk, result):
+    try:
+        d = vlib.scratch("close")
+        outp = os.path.join(d, "close.ndjson")
+        r = vlib.go_test_inpkg("client/lib", HFILES, "^TestVerifC15CloseRace$", env={"VERIF_C15_CLOSE_OUT": outp},
+                               linkflag=True, timeout=300)
+        result["parts"] = vlib.read_ndjson(outp) if os.path.exists(outp) else []
+        m = re.search(r"^panic: (?!test timed out).*$", r.out, re.M)
+        if r.rc != 0 and not r.timed_out and m:
+            # a closer the driver cannot wrap (staleness goroutine, pion's OnClose callback) panicked: the process died
+            result["crash"] = {"panic": m.group(0), "stack": r.out[m.start():m.start() + 3500]}
+            return
+        if r.timed_out or r.rc != 0 or "\nok" not in "\n" + r.out:
+            raise vlib.Inconclusive("go test TestVerifC15CloseRace failed (rc=%s timeout=%s):\n%s" % (r.rc, r.timed_out, r.out[-3000:]))
+    except Exception as e:  # noqa: BLE001
+        result["error"] = e
+
+
+def closerace_contract(chk):
+    """TLC: the atomic Close satisfies CloseOnce (2 and 3 closers) and prints the terminal observation;
+    the check-then-act what-if must violate it"""
+    terminal = None
+    for cfg in (("PCl_atomic2.cfg",) if chk.tier == "quick" else ("PCl_atomic2.cfg", "PCl_atomic3.cfg")):
+        r = vlib.tlc(SPECDIR, "PeerClose", cfg, workers=1, timeout=300)
+        chk.add_tlc(r)
+        if r.error:
+            raise vlib.Inconclusive("PeerClose %s (model only): %s\n%s" % (cfg, r.error, r.out[-1500:]))
+        obs = {json.dumps({k: p[k] for k in ("panics", "cleanups", "closed")}, sort_keys=True) for p in r.prints if isinstance(p, dict) and "cleanups" in p}
+        if len(obs) != 1:
+            raise vlib.Inconclusive("PeerClose %s: terminal observations %s" % (cfg, sorted(obs)))
+        t = json.loads(obs.pop())
+        if terminal is not None and t != terminal:
+            raise vlib.Inconclusive("PeerClose: terminal observation depends on the number of closers: %s vs %s" % (t, terminal))
+        terminal = t
+    r = vlib.tlc(SPECDIR, "PeerClose", "PCl_mut.cfg", workers=1, timeout=300, keep_prints=False)
+    chk.add_tlc(r)
+    if r.error != "invariant:CloseOnce":
+        raise vlib.Inconclusive("vacuity: the check-then-act Close does not violate CloseOnce: %s" % r.error)
+    return terminal
+
+
+def judge_closerace(chk, result, terminal):
+    if "error" in result:
+        raise result["error"]
+    parts = result.get("parts", [])
+    if "crash" in result:
+        c = result["crash"]
+        sig = "C15/panic:WebRTCPeer.Close/concurrent-closers" if "close of closed channel" in c["panic"] else "C15/panic:close-race-driver-process"
+        chk.violation(sig, "a goroutine that closes a peer on its own (staleness checker / pion's OnClose callback) panicked while Peers.End "
+                      "was closing the same peer, and the process died: %s (parts finished before: %s)" % (c["panic"], [p["part"] for p in parts]),
+                      {"kind": "close", "crash": c})
+        chk.cov["evaluations"] += 1
+        return
+    if len(parts) < 5:
+        raise vlib.Inconclusive("close-race driver wrote %d of 5 parts" % len(parts))
+    rounds = 0
+    for p in parts:
+        if p.get("note"):
+            raise vlib.Inconclusive("close-race part %s: %s" % (p["part"], p["note"]))
+        rounds += p["rounds"]
+        rp = {"kind": "close", "got": p}
+        name = "%s (%d rounds, %d simultaneous closers, %d peers)" % (p["part"], p["rounds"], p["closers"], p["peers"])
+        if p["panics"] != terminal["panics"] * p["peers"]:
+            txt = re.sub(r"[^a-z ]", "", p["first_panic"].split(": ", 1)[-1].lower()).strip().replace(" ", "-")[:40]
+            chk.violation("C15/panic:WebRTCPeer.Close/concurrent-closers" if "close of closed channel" in p["first_panic"] else "C15/panic:WebRTCPeer.Close/" + txt,
+                          "%s: %d closer(s) panicked (first: %s); in the client these goroutines are pion's / the staleness checker's / the data "
+                          "path's / the one inside End, none recovers" % (name, p["panics"], p["first_panic"]), rp)
+        if p["closings"] != terminal["cleanups"] * p["peers"]:
+            chk.violation("C15/close-body-ran-%s" % ("more-than-once" if p["closings"] > p["peers"] else "less-than-once"),
+                          "%s: the body of Close (close + cleanup) ran %d times for %d peers; CloseOnce demands exactly once each" % (name, p["closings"], p["peers"]), rp)
+        if (p["not_closed"] == 0) != terminal["closed"] or p["pc_not_closed"]:
+            chk.violation("C15/peer-left-open-after-concurrent-Close",
+                          "%s: %d peers report Closed() == false and %d PeerConnections are not closed after all closers returned" % (
+                              name, p["not_closed"], p["pc_not_closed"]), rp)
+    chk.cov["evaluations"] += rounds
+    chk.cov["distinct_nontrivial"] += len(parts)
+    chk.cov["close_race"] = {p["part"] + "/%d" % p["closers"]: {"rounds": p["rounds"], "peers": p["peers"], "panics": p["panics"]} for p in parts}
+    chk.note("close race: %d parts, %d rounds of simultaneous closers on the real WebRTCPeer, %d ms" % (len(parts), rounds, sum(p["wall_ms"] for p in parts)))
+
+
+# --------------------------------------------------------------------------
 
 def run(chk, args):
     chk.known.extend(KNOWN)
@@ -477,17 +608,22 @@ def run(chk, args):
     vlib.repo_modfile()
     if args.replay:
         return replay(chk, args.replay)
-    only = set((args.only or "mc,peers,pc,loop").split(","))
+    only = set((args.only or "mc,peers,pc,loop,close").split(","))
 
     # real-time parts run in the background (Go subprocesses only; TLC stays on this thread)
-    threads, pcres, loopres = [], {}, {}
+    threads, pcres, loopres, closeres = [], {}, {}, {}
+    if "close" in only:
+        threads.append(threading.Thread(target=closerace, args=(chk, closeres)))
     if "loop" in only:
         threads.append(threading.Thread(target=connectloop, args=(chk, loopres)))
     if "pc" in only:
         threads.append(threading.Thread(target=peerconnect, args=(chk, pcres)))
     for t in threads:
         t.start()
+    terminal = None
     try:
+        if "close" in only:
+            terminal = closerace_contract(chk)
         if "mc" in only:
             model_check(chk, q)
         if "peers" in only and not chk.inconclusive:
@@ -503,6 +639,11 @@ def run(chk, args):
                 judge(chk, res)
             except vlib.Inconclusive as e:
                 chk.fail(str(e))
+    if "close" in only and terminal is not None:
+        try:
+            judge_closerace(chk, closeres, terminal)
+        except vlib.Inconclusive as e:
+            chk.fail(str(e))
     chk.cov["exhaustive"] = False
     chk.cov["rule"] = ("an evaluation is one command schedule executed against the real Peers (projection of a TLC behaviour of "
                        "spec/Peers GenSpec: state-graph edge cover, seeded walks, -simulate samples, counterexamples of the as-is "
@@ -516,6 +657,8 @@ def run(chk, args):
         "peers in the Peers replay are the hook-free fake *WebRTCPeer{closed: ...} the repository's own tests use; real pion peers only in PeerConnect",
         "quiescence = every operation goroutine finished or parked (chan send/receive, select, sync.Mutex.Lock) in two consecutive goroutine dumps",
         "connectLoop/Close is observed in real time for ReconnectTimeout + 2 s after Close returned",
+        "concurrent closers: a stress part (spin barrier, a few thousand rounds) - detection of a check-then-act Close is statistical "
+        "(measured 21 % of 2-closer rounds, 63 % of 4-closer rounds), not exhaustive over interleavings; TLC covers the interleavings on PeerClose.tla",
         "SessionDies is bound to the real code by the real-time scenarios only (the harness closes the smux session / packet conn through "
         "the SnowflakeConn's fields, as smux's keep-alive would after 10 min); the Peers replay calls End directly",
         "events are consumed by a mirror of client/snowflake.go ptEventLogger (String() on every event, synchronously, no recover); "
@@ -551,6 +694,10 @@ def model_check(chk, q):
         chk.add_tlc(r)
         if r.error != "invariant:NoPanic":
             chk.fail("vacuity: PeerConnect as-is (D10) configuration does not violate NoPanic: %s" % r.error)
+    r = vlib.tlc(SPECDIR, "PeerConnect", "PC_lockleak.cfg", workers=1, timeout=300, keep_prints=False)
+    chk.add_tlc(r)
+    if r.error != "invariant:LockReleased":
+        chk.fail("vacuity: a Negotiate error exit that keeps the channel lock does not violate LockReleased: %s" % r.error)
     r = vlib.tlc(SPECDIR, "PeerConnect", "PC_nilevent.cfg", workers=1, timeout=300, keep_prints=False)
     chk.add_tlc(r)
     if r.error != "invariant:NoPanic":
@@ -692,6 +839,11 @@ def replay(chk, path):
         res = {}
         connectloop(chk, res)
         judge_connectloop(chk, res)
+    elif rp["kind"] == "close":
+        res = {}
+        terminal = closerace_contract(chk)
+        closerace(chk, res)
+        judge_closerace(chk, res, terminal)
     else:
         raise vlib.Inconclusive("unknown replay kind %r" % rp.get("kind"))
 
@@ -706,9 +858,13 @@ MANIFEST = {
             "seeded walks, -simulate, as-is counterexamples) are executed against the real Peers with a scripted Tongue and goroutine-dump "
             "quiescence; TLC accepts or rejects each recorded trace (observations: parked position/result of every operation, queue length, "
             "active list, closed set, melt flag, Catch count; a final observation with an End still pending is rejected). Every path of the "
-            "PeerConnect machine (5 ICE classes x 9 broker classes x 2 data-channel classes, 23 paths) runs through the real dialer with "
+            "PeerConnect machine (5 ICE x 9 broker x 5 fingerprint x 2 data-channel classes, 97 cases / 190 attempts) runs through the real dialer with "
             "the real HTTP rendezvous, a scripted broker and an in-process pion answerer; Transport.Dial/connectLoop/SnowflakeConn.Close run "
-            "in real time (no rendezvous for ReconnectTimeout+2s after Close, Close twice).",
+            "in real time (no rendezvous for ReconnectTimeout+2s after Close, Close twice; also after the session died by itself, after a "
+            "data-channel timeout and after a retry with an invalid bridge fingerprint). PeerConnect cases carry a bridge-fingerprint class and "
+            "run 2 attempts on ONE BrokerChannel followed by Peers.End and SetNATType (channel lock released on every exit of Negotiate, "
+            "invariant LockReleased); events are consumed like the client binary's logger. spec/Peers/PeerClose.tla: Close with concurrent "
+            "closers (CloseOnce); a barrier stress of simultaneous closers on the real WebRTCPeer is compared with TLC's terminal observation.",
     "note": "Replay is at quiescent grain (commands only when all goroutines are parked); finer interleavings are model-checked only. "
             "Peers replay uses the repository's fake peers; Mutex fairness assumed for EndReturns; bounds Max<=3 in replay, Max<=2 in MC.",
 }
